@@ -7,9 +7,10 @@ class P(Prop):
     ID = "C12"
     MODULE = "C12"
     THEOREMS = ["C12_runmax", "C12_sorted", "C12_empty", "C12_example"]
-    KERNELS = ["Poly0::evaluate", "Poly3::evaluate"]
+    KERNELS = ["Poly0::evaluate", "Poly3::evaluate", "Segment<Poly0>::evaluate", "Segment<Poly3>::evaluate"]
     RULE = ("evaluate_v on sequences of 0..60 (thorough ..1000) non-NaN arguments, sorted and unsorted, repeats, exact ends, "
-            "+-inf, over 1..12 segments; plus a laziness probe (input iterator counting pulls). non-trivial = >= 2 segments "
+            "+-inf, over 1..12 segments; the evaluate_v_pt op also runs Piecewise::evaluate on each argument and the oracle demands "
+            "bit equality wherever the argument is >= all earlier ones; a signed-zero class (runs of -0.0/+0.0 arguments, pieces with -0.0 coefficients); plus a laziness probe (input iterator counting pulls). non-trivial = >= 2 segments "
             "selected; distinct by full input")
     TRUSTED = ["skeleton PwModel.ev_v tied to Piecewise::evaluate_v by bit-exact correspondence",
                "laziness of the Rust iterator is observed by a test (pull counter), not modelled"]
@@ -26,16 +27,31 @@ class P(Prop):
             xs = history(rng, es, hl) if hl else []
             if rng.random() < 0.5:
                 xs = sorted(xs, key=C.ordered_key)
-            op = "evaluate_v" if rng.random() < 0.85 else "evaluate_v_lazy"
+            op = rng.choice(["evaluate_v"] * 3 + ["evaluate_v_pt"] * 3 + ["evaluate_v_lazy"])
             out.append(dict(op=op, ty=ty, segs=sg, xs=xs, meta={"class": op + "/" + ty}))
+        # signed zeros: equal arguments with different bits, pieces whose value depends on the sign of a zero argument
+        Z = [C.bits(0.0), C.bits(-0.0)]
+        for i in range(max(30, n // 8)):
+            k = rng.randint(1, 4)
+            es = sorted(rng.choice([-1.0, -0.0, 0.0, 0.0, 1.0, 2.0, float("inf")]) for _ in range(k))
+            sg = [[C.bits(e), C.bits(rng.choice([-0.0, -0.0, 0.0, 1.0])), C.bits(rng.choice([1.0, -3.0, 5e-324, -0.0, 0.0]))]
+                  + [C.bits(rng.choice([-0.0, 0.0, 1.0, -3.0])) for _ in range(2)] for e in es]
+            xs = [rng.choice(Z + Z + [C.bits(-1.0), C.bits(5e-324), C.bits(-5e-324), C.bits(1.0)]) for _ in range(rng.randint(2, 12))]
+            if rng.random() < 0.7:
+                xs = sorted(xs, key=lambda b: C.fl(b))       # stable: keeps -0/+0 in drawn order
+            out.append(dict(op="evaluate_v_pt", ty="Poly3", segs=sg, xs=xs, meta={"class": "signed_zero"}))
         out.append(dict(op="evaluate_v", ty="Poly0", segs=[], xs=[0], meta={"class": "empty"}))
         return out
 
     def coq_term(self, case, h):
-        if case["op"] != "evaluate_v":
+        if case["op"] == "evaluate_v_lazy":
             return None
-        return "run_evaluate_v [] [] %s %s %s" % (C.kname("%s::evaluate" % case["ty"]),
-                                                  C.zlistlist(case["segs"]), C.zlist(case["xs"]))
+        t = "run_evaluate_v [] [] %s %s %s" % (C.kname("%s::evaluate" % case["ty"]),
+                                               C.zlistlist(case["segs"]), C.zlist(case["xs"]))
+        if case["op"] == "evaluate_v_pt":
+            t = "(%s ++ run_pw_eval [] [] %s %s %s)" % (t, C.kname("Segment<%s>::evaluate" % case["ty"]),
+                                                        C.zlistlist(case["segs"]), C.zlist(case["xs"]))
+        return t
 
     def oracle(self, case, h):
         segs = case["segs"]
@@ -51,6 +67,20 @@ class P(Prop):
                 if r[2 + 2 * k] != k + 1:
                     return "after %d outputs %d inputs had been pulled (not lazy / not in order)" % (k + 1, r[2 + 2 * k])
             answers = r[1::2]
+        elif case["op"] == "evaluate_v_pt":
+            n = len(case["xs"])
+            if len(h["r"]) != 2 * n:
+                return "evaluate_v yielded %d values for %d arguments" % (len(h["r"]) - n, n)
+            answers, direct = h["r"][:n], h["r"][n:]
+            m = None
+            for k, xb in enumerate(case["xs"]):
+                x = C.fl(xb)
+                if m is None or x >= m:
+                    # the running maximum is this argument: the batch answer must be the individually evaluated one
+                    if C.canon(answers[k]) != C.canon(direct[k]):
+                        return ("argument %d x=%r (>= every earlier argument): evaluate_v gave 0x%016x, evaluating it "
+                                "individually gives 0x%016x" % (k, x, answers[k], direct[k]))
+                    m = x
         else:
             answers = h["r"]
         if len(answers) != len(case["xs"]):
@@ -69,7 +99,7 @@ class P(Prop):
     def nontrivial_key(self, case, h):
         if h["r"] == "PANIC" or len(case["segs"]) < 2:
             return None
-        a = h["r"][1::2] if case["op"] == "evaluate_v_lazy" else h["r"]
+        a = h["r"][1::2] if case["op"] == "evaluate_v_lazy" else h["r"][:len(case["xs"])]
         if len(set(a)) < 2:
             return None
         return super().nontrivial_key(case, h)
